@@ -8,8 +8,8 @@ from .tlc import TLCError, run_tlc
 FAMILY = {
     "C02": {"First", "ArgMax", "Point", "Inside", "SpuriousGuard"},
     "C03": {"Count", "Budget", "StopLate", "StopEarly", "Accuracy", "SolveReturns", "NoIntExc", "DgiCount"},
-    "C04": {"BestValue", "BestIsTrial", "BestAtPoint", "BestPresent", "RefValue"},   # RefValue: reported value = objective at the reported point, after refinement
-    "C05": {"InBox", "RefInBox", "RefNotWorse", "RefValue", "RefPointInBox", "UnexpectedEvaluation"},
+    "C04": {"BestValue", "BestIsTrial", "BestAtPoint", "BestPresent", "RefValue", "RefBestOfLocal"},   # RefValue: reported value = objective at the reported point, after refinement
+    "C05": {"InBox", "RefInBox", "RefNotWorse", "RefValue", "RefPointInBox", "UnexpectedEvaluation", "RefBestOfLocal"},
     "C06": {"SnapCount", "SnapLinks", "SnapOrder", "SnapZ", "SnapHolder", "SnapDelta", "SnapImage", "SnapEnds",
             "SnapIter", "ZLogged", "YLogged", "Image"},       # (SameHolder is an identity, not required by the property: recorded, not judged)
     "C16": {"ArgMax", "Point", "Inside", "Accuracy", "StopLate", "StopEarly", "DgiCount", "FailContained", "Count", "BestValue", "BestIsTrial", "BestPresent", "SnapCount", "SnapLinks", "SnapOrder",
